@@ -8,7 +8,7 @@ LEVEL = "model_checking"
 
 def call_t3(ec, mp, dps, T, r, a, j, c):
     mp.mp.dps = dps
-    return ec.move_dist_t3(T, r, a, j, S.acc_arg(c))
+    return S.call(ec.move_dist_t3, T, r, a, j, S.acc_arg(c))
 
 
 def g_t3(ctx, ec, mp, cfg):
@@ -24,15 +24,15 @@ def g_t3(ctx, ec, mp, cfg):
         case = {"mode": "G", "T": T, "rate": r, "accel": a, "jerk": j, "accum": acc_in, "dps": dps}
         got = call_t3(ec, mp, dps, T, r, a, j, acc_in)
         ctx.count(("G", r, a, j, acc_in, T))
-        if got != want or not S.is_int(*got):
-            ctx.violation("t3.stepped_state", dict(case, fn="move_dist_t3"), list(want), repr(got))
+        if got != want:
+            ctx.violation("t3.raises" if isinstance(got, S.Raised) else "t3.stepped_state", dict(case, fn="move_dist_t3"), list(want), repr(got))
         mp.mp.dps = dps
-        gr = ec.rate_t3(T, r, a, j)
-        if gr != st["rate"] or not S.is_int(gr):
-            ctx.violation("rate.end_of_move", dict(case, fn="rate_t3"), st["rate"], repr(gr))
+        gr = S.call(ec.rate_t3, T, r, a, j)
+        if gr != st["rate"]:
+            ctx.violation("rate.raises" if isinstance(gr, S.Raised) else "rate.end_of_move", dict(case, fn="rate_t3"), st["rate"], repr(gr))
         if j == 0:
             mp.mp.dps = dps
-            gl = ec.move_dist_lt(r, a, T, S.acc_arg(acc_in))
+            gl = S.call(ec.move_dist_lt, r, a, T, S.acc_arg(acc_in))
             if gl != got:
                 ctx.violation("t3.zero_jerk_is_lt", dict(case, fn="move_dist_t3 vs move_dist_lt"), repr(gl), repr(got))
         if len(events) < 20000 and (T <= 3 or (r + a + T) % 5 == 0):
@@ -41,14 +41,16 @@ def g_t3(ctx, ec, mp, cfg):
         if ctx.evaluations % 9973 == 1:
             ctx.sample({"mode": "G", "T": T, "rate": r, "accel": a, "jerk": j, "accum": "clear" if acc_in == S.CLEAR else acc_in,
                         "stepped": {"pos": want[0], "acc": want[1], "rate": st["rate"]}, "move_dist_t3": repr(got), "rate_t3": repr(gr)})
+    prev = None
     for (T, r, a, j, acc_in, want, wrate) in reversed(seen):       # opposite order: no answer may depend on earlier calls
         got = call_t3(ec, mp, 15, T, r, a, j, acc_in)
-        gr = ec.rate_t3(T, r, a, j)
+        gr = S.call(ec.rate_t3, T, r, a, j)
         if got != want or gr != wrate:
             ctx.violation("t3.stepped_state", {"mode": "G", "fn": "move_dist_t3", "T": T, "rate": r, "accel": a, "jerk": j, "accum": acc_in, "dps": 15,
-                                               "order": "second pass, reverse order"}, [list(want), wrate], repr((got, gr)))
+                                               "order": "second pass, reverse order", "prelude": prev}, [list(want), wrate], repr((got, gr)))
             if ctx.enough(30):
                 break
+        prev = [T, r, a, j, acc_in]
     vs = S.judge(ctx, "g_cross", events)
     off = [(e, v) for e, v in zip(events, vs) if v != "ok"]
     if off:
@@ -104,10 +106,10 @@ def v_t3(ctx, ec, mp, n):
         out = call_t3(ec, mp, dps, T, r, a, j, c)
         events.append(S.ev_move("t3", r, a, j, c, T, out, dps))
         mp.mp.dps = dps
-        events.append(S.ev_val("rate", r, a, j, T, ec.rate_t3(T, r, a, j), dps))
+        events.append(S.ev_val("rate", r, a, j, T, S.call(ec.rate_t3, T, r, a, j), dps))
         if j == 0:
             mp.mp.dps = dps
-            events.append(S.ev_move("lt", r, a, 0, c, T, ec.move_dist_lt(r, a, T, S.acc_arg(c)), dps))
+            events.append(S.ev_move("lt", r, a, 0, c, T, S.call(ec.move_dist_lt, r, a, T, S.acc_arg(c)), dps))
     vs = S.judge(ctx, "v", events)
     rej = 0
     for e, v in zip(events, vs):
@@ -135,6 +137,7 @@ def run(ctx):
     ctx.run_tlc("e1.stepper", "StepperMC", "Stepper_small.cfg", coverage=True)
     ctx.run_tlc("e1.stepper_t3", "StepperMC", "Stepper_small_t3.cfg")
     ctx.run_tlc("e1.leap", "StepperLeapMC", "StepperLeap_t3_quick.cfg" if q else "StepperLeap_thorough.cfg")
+    ctx.run_tlc("e1.leap_domain", "StepperLeapMC", "StepperLeap_domain.cfg")
     proved = c01.apalache(ctx)
     g_t3(ctx, ec, mp, "Stepper_full_t3_%s.cfg" % ctx.tier)
     v_t3(ctx, ec, mp, 2500 if q else 120000)
@@ -156,13 +159,17 @@ def replay(rec):
     c = rec["case"]
     T, r, a, j, acc, dps = c["T"], c["rate"], c["accel"], c["jerk"], c.get("accum", 0), c.get("dps", 15)
     evs = []
+    if c.get("prelude"):
+        pT, pr, pa, pj, pc = c["prelude"]              # observed after this call had been made
+        call_t3(ec, mp, 15, pT, pr, pa, pj, pc)
+        S.call(ec.rate_t3, pT, pr, pa, pj)
     out = call_t3(ec, mp, dps, T, r, a, j, acc)
     evs.append(S.ev_move("t3", r, a, j, acc, T, out, dps))
     mp.mp.dps = dps
-    evs.append(S.ev_val("rate", r, a, j, T, ec.rate_t3(T, r, a, j), dps))
+    evs.append(S.ev_val("rate", r, a, j, T, S.call(ec.rate_t3, T, r, a, j), dps))
     if j == 0:
         mp.mp.dps = dps
-        evs.append(S.ev_move("lt", r, a, 0, acc, T, ec.move_dist_lt(r, a, T, S.acc_arg(acc)), dps))
+        evs.append(S.ev_move("lt", r, a, 0, acc, T, S.call(ec.move_dist_lt, r, a, T, S.acc_arg(acc)), dps))
     ctx = vlib.Ctx("C02", "quick", 0, LEVEL, fresh=False)
     vs = S.judge(ctx, "replay", evs)
     return all(v in ("ok", "skip") for v in vs), {"verdicts": vs, "returned": [e["raw"] for e in evs]}
